@@ -107,6 +107,24 @@ def run(res, proof):
                 res.violation('is_domainlevel_complement', {'op': ['ComplexS.is_domainlevel_complement', ' '.join(names), s]},
                               repr(c.is_domainlevel_complement), repr(dlc))
             res.count('dlc_%s' % dlc)
+            # the same views after the object was rotated (tables populated before the rotation), enclosed read first
+            nstr = len(strands)
+            if connected and nstr > 1:
+                k = rng.randrange(1, nstr)
+                _ = (c.exterior_domains, c.enclosed_domains, list(c.pair_table))
+                c.turns = c.turns + k
+                s2 = ''.join(c.structure)
+                st2 = s2.split('+')
+                li2, ext2, _c2 = ref.ref_loops(st2)
+                pt2 = ref.ref_pair_table(s2)
+                exd2 = [(si, di) for si, row in enumerate(pt2) for di, p in enumerate(row) if p is None and li2[si][di] in ext2]
+                end2 = [(si, di) for si, row in enumerate(pt2) for di, p in enumerate(row) if p is None and li2[si][di] not in ext2]
+                got_en = list(c.enclosed_domains)
+                got_ex = list(c.exterior_domains)
+                if got_en != end2 or got_ex != exd2:
+                    res.violation('exterior_domains:after-rotation', {'op': ['ComplexS.enclosed_domains after turns', ' '.join(names), s, 'turns+=%d' % k]},
+                                  repr((got_ex, got_en)), repr((exd2, end2)))
+                res.count('views_after_rotation')
             del c
         except Exception as e:
             res.violation('ComplexS-views:raises:' + type(e).__name__, {'op': ['ComplexS.views', ' '.join(names), s]}, type(e).__name__, 'views computed')
